@@ -38,6 +38,10 @@ def sh(cmd, timeout=None, cwd=None, env=None, mem_gb=None):
     return rc, out, err, time.time() - t0
 
 
+# display() is debug output, reachable only through the vtables; no property refers to it.  A cut is an assertion.
+DEFAULT_CUTS = [r'7displayEv$', r'12display_baseEv$']
+
+
 class BuildError(Exception):
     pass
 
@@ -51,7 +55,7 @@ def scratch_root():
     return d
 
 
-def build_unit(name, cpp, roots, defines=(), sessions=2, cuts=(), inline_all=False, extra_c=(), cdefs=()):
+def build_unit(name, cpp, roots, defines=(), sessions=2, cuts=(), inline_all=False, extra_c=(), cdefs=(), all_hooks=False):
     """compile harness `cpp` against /repo/include, translate, goto-cc.  returns dict(dir, c, gb, info)"""
     wd = os.path.join(scratch_root(), name)
     os.makedirs(wd, exist_ok=True)
@@ -74,7 +78,7 @@ def build_unit(name, cpp, roots, defines=(), sessions=2, cuts=(), inline_all=Fal
         raise BuildError('opt failed:\n' + err[-3000:])
     text = open(lll).read()
     try:
-        src, info = ll2c.translate(text, roots, dict(cuts=list(cuts)))
+        src, info = ll2c.translate(text, roots, dict(cuts=list(cuts) + DEFAULT_CUTS, all_hooks=all_hooks))
     except Exception as e:
         raise BuildError('ll2c failed on %s: %r' % (cpp, e))
     if info['missing']:
@@ -178,7 +182,7 @@ def trace_inputs(trace):
     return [ins.get(i, 0) for i in range(n)]
 
 
-def run_harness(unit, fn, tier='quick', timeout=300, mem_gb=24, default_data=4, const_bound=17, sync_bound=2,
+def run_harness(unit, fn, tier='quick', timeout=300, mem_gb=24, default_data=4, recursion=1, const_bound=17, sync_bound=2,
                 unwind_overrides=None, max_refine=6, extra_flags=(), checks=False, solver=('--external-sat-solver', 'kissat')):
     """one CBMC query (with unwinding-bound refinement).  returns result dict"""
     gb = unit['gb']
@@ -192,18 +196,20 @@ def run_harness(unit, fn, tier='quick', timeout=300, mem_gb=24, default_data=4, 
         elif kind == 'data':
             us[lname] = default_data + 1
         else:
-            us[lname] = 66
+            us[lname] = 20
+    for rf in unit['info'].get('recursive', []):
+        us[rf] = recursion
     for k, v in (unwind_overrides or {}).items():
         for lname in us:
             if re.search(k, lname):
                 us[lname] = v
     total = dict(queries=0, solver_s=0.0, wall_s=0.0, steps=0, vars=0, clauses=0, vccs=0, rss_kb=0)
     log = []
-    base = ['cbmc', gb, '--function', cfn, '--object-bits', '16', '--drop-unused-functions', '--no-malloc-may-fail']
+    base = ['cbmc', gb, '--function', cfn, '--object-bits', '16', '--drop-unused-functions', '--no-malloc-may-fail', '--slice-formula']
     if not checks:
         base += ['--no-standard-checks']
     # property inventory: real assertions vs reachability witnesses (vacuity guard)
-    rc, out, err, dt = sh(base + ['--show-properties', '--json-ui'], timeout=300)
+    rc, out, err, dt = sh([x for x in base if x != '--slice-formula'] + ['--show-properties', '--json-ui'], timeout=300)
     real, reach = [], []
     try:
         for it in json.loads(out):
@@ -254,6 +260,8 @@ def run_harness(unit, fn, tier='quick', timeout=300, mem_gb=24, default_data=4, 
             if kind == 'sync':
                 cap = max(sync_bound, 12)
             new = min(cap, max(cur * 2, cur + 2))
+            if kind in ('data', 'const'):
+                new = cap      # a harness-bounded loop never needs more than its bound: this one was misclassified
             if new > cur:
                 us[b] = new
                 changed = True
